@@ -2,6 +2,8 @@ package main
 
 import (
 	"bytes"
+	_ "embed"
+	"encoding/json"
 	"fmt"
 	"math"
 	"strings"
@@ -262,12 +264,46 @@ type renderCase struct {
 	Rec  string
 	Vals map[string]FV
 	Note string
+	L    *RecLayout // the layout the case was generated from (the pinned one when the regenerated one is not recognised)
+}
+
+// the write layouts of the unchanged tree: used ONLY to generate render cases for a record whose String() the translator
+// no longer recognises (its regenerated table is then a list of opaque statements and would yield no case at all); what
+// the cases are judged by is the Spec rendering of the Lean driver, as always
+//
+//go:embed pinned_write.json
+var pinnedWriteJSON []byte
+
+func pinnedLayout(L *RecLayout) *RecLayout {
+	var pinned map[string][]WField
+	if json.Unmarshal(pinnedWriteJSON, &pinned) != nil {
+		return L
+	}
+	p, ok := pinned[L.Go]
+	if !ok {
+		return L
+	}
+	opaque := func(ws []WField) int {
+		n := 0
+		for _, w := range ws {
+			if w.Conv == "opaque" {
+				n++
+			}
+		}
+		return n
+	}
+	if opaque(L.Write) <= opaque(p) {
+		return L
+	}
+	c := *L
+	c.Write = p
+	return &c
 }
 
 func renderCases(r rng, tier string) []renderCase {
 	var cases []renderCase
 	for li := range tables.Records {
-		L := &tables.Records[li]
+		L := pinnedLayout(&tables.Records[li])
 		lenFields := map[string]bool{}
 		for _, w := range L.Write {
 			if w.LenField != "" {
@@ -280,7 +316,7 @@ func renderCases(r rng, tier string) []renderCase {
 		}
 		for v := 0; v < variants; v++ {
 			base := markerVals(L, v)
-			cases = append(cases, renderCase{L.Go, base, "marker"})
+			cases = append(cases, renderCase{L.Go, base, "marker", L})
 			for _, w := range L.Write {
 				if w.Conv == "lit" || w.Conv == "opaque" {
 					continue
@@ -300,7 +336,7 @@ func renderCases(r rng, tier string) []renderCase {
 						vals[k] = x
 					}
 					vals[w.Src] = h
-					cases = append(cases, renderCase{L.Go, vals, "field " + w.Src})
+					cases = append(cases, renderCase{L.Go, vals, "field " + w.Src, L})
 				}
 			}
 		}
@@ -321,7 +357,7 @@ func renderCases(r rng, tier string) []renderCase {
 				zero[w.Src] = FV{K: 'S'}
 			}
 		}
-		cases = append(cases, renderCase{L.Go, zero, "zero"})
+		cases = append(cases, renderCase{L.Go, zero, "zero", L})
 	}
 	return cases
 }
@@ -360,7 +396,7 @@ func runC02(cfg *config) *Report {
 	var impl []string
 	baseline := map[string]string{}
 	for _, c := range cases {
-		L := layoutOf(c.Rec)
+		L := c.L
 		rec := newRec(c.Rec)
 		applyVals(rec, L, c.Vals)
 		s, p := recString(rec)
